@@ -38,6 +38,8 @@ def check_reset_before_accumulate(db, chk, rule: str) -> None:
 
 
 def run(db, chk) -> None:
+    from ..specs.discipline import check_facade_stateless
+    check_facade_stateless(db, chk, "C09.R-facade-stateless", ['critical_path_analysis'])
     from ..specs.discipline import check_stateless
     check_stateless(db, chk, "C09.R-stateless", ['hta.analyzers.critical_path_analysis'])      # the result is a function of the arguments: no state kept between calls, caller's Trace untouched
     chk.floor("C09.R-stateless", 4)
